@@ -214,11 +214,11 @@ def execute(scn):
     exp = pl.expected_calls(cfg, set(tbl["cols"]))
     for e in exp:
         e["window"] = cfg["contexts"][e["ctx"]].get("window")
-        e["fails"] = e["entry"]["role"] != "healthy"
+        e["fails"] = e["entry"]["role"] not in ("healthy", "F6d")
     for c in cfg["contexts"]:
         for e in c["entries"]:
             if e["role"] != "healthy":
-                bump("faults", e["role"])
+                bump("faults", "F6-data-dependent" if e["role"] == "F6d" else e["role"])
                 if e["role"] == "F6" and e["params"].get("scribble"):
                     bump("faults", "F6-scribble")
 
